@@ -602,14 +602,24 @@ func (n *Network) Certify(vs lib.ValidatorSet, block []byte, results *lib.Certif
 	return qc
 }
 
-// Aggregate signs msg with the chosen validators and aggregates on the committee's multi-key.
+// signerKey maps a signer index to a key: 0..len(ValKeys)-1 are the genesis validators, the indices
+// after them are the funded accounts (AcctKeys), whose BLS ones can become validators by staking.
+func (n *Network) signerKey(i int) crypto.PrivateKeyI {
+	if i < len(n.ValKeys) {
+		return n.ValKeys[i]
+	}
+	return n.AcctKeys[i-len(n.ValKeys)]
+}
+
+// Aggregate signs msg with the chosen signers (see signerKey) and aggregates on the committee's
+// multi-key. A signer that is not (or no longer) a member of the committee cannot sign and is skipped.
 func (n *Network) Aggregate(vs lib.ValidatorSet, msg []byte, signers []int) *lib.AggregateSignature {
 	mk := vs.MultiKey.Copy()
 	for _, i := range signers {
-		k := n.ValKeys[i]
+		k := n.signerKey(i)
 		_, idx, err := vs.GetValidatorAndIdx(k.PublicKey().Bytes())
 		if err != nil {
-			continue // not (or no longer) a committee member: cannot sign
+			continue
 		}
 		if e := mk.AddSigner(k.Sign(msg), idx); e != nil {
 			panic(e)
@@ -622,11 +632,32 @@ func (n *Network) Aggregate(vs lib.ValidatorSet, msg []byte, signers []int) *lib
 	return &lib.AggregateSignature{Signature: sig, Bitmap: mk.Bitmap()}
 }
 
-// AllSigners is 0..nValidators-1.
+// SignedPower is the voting power of the chosen signers inside the committee, with the committee's
+// +2/3 threshold: a driver that means to build a full certificate checks signed >= threshold.
+func (n *Network) SignedPower(vs lib.ValidatorSet, signers []int) (signed, threshold uint64) {
+	seen := map[int]bool{}
+	for _, i := range signers {
+		v, idx, err := vs.GetValidatorAndIdx(n.signerKey(i).PublicKey().Bytes())
+		if err != nil || seen[idx] {
+			continue
+		}
+		seen[idx] = true
+		signed += v.VotingPower
+	}
+	return signed, vs.MinimumMaj23
+}
+
+// AllSigners is every key the network holds that can be a committee member: the genesis validators
+// and every BLS account (which a transaction may have staked as a new validator).
 func (n *Network) AllSigners() []int {
-	out := make([]int, len(n.ValKeys))
-	for i := range out {
-		out[i] = i
+	var out []int
+	for i := range n.ValKeys {
+		out = append(out, i)
+	}
+	for j, k := range n.AcctKeys {
+		if _, ok := k.(*crypto.BLS12381PrivateKey); ok {
+			out = append(out, len(n.ValKeys)+j)
+		}
 	}
 	return out
 }
